@@ -35,6 +35,8 @@ import (
 //     c10_jit_test.go: the just-in-time update through its three entry points (scheduler, skyway
 //     event, end blocker), directed and macro histories in which the current snapshot is only partly
 //     on an active chain, and the monitor on every message an update adds to a queue.
+//     c10_long_test.go: long histories (hundreds to more than a thousand stored snapshots, old
+//     snapshots live on chains, time jumps of months and a year) - ops `brief`, `snap`, `live`.
 
 var (
 	c10Two32     = new(big.Int).Lsh(big.NewInt(1), 32)
@@ -634,11 +636,18 @@ type c10Keeper struct {
 	idOf      map[string]int // operator address -> model id
 	scSaved   *evmtypes.SmartContract
 	// monitor state
-	seen     map[uint64][2]string // id -> {immutable part, chains}
-	nSnaps   uint64
-	nonTriv  bool
-	pendingL []string
-	pendingO []string
+	seen   map[uint64]c10Seen // id -> what FindSnapshotByID last returned for it
+	gone   map[uint64]bool    // ids already reported as disappeared
+	nSnaps uint64             // highest id ever found stored
+	brief  bool               // compact state lines (long histories, c10_long_test.go)
+	liveOn map[int]uint64     // chain -> highest id for which SetSnapshotOnChain succeeded
+	// the store summary of the last complete read (brief mode) and "no op of this block has read the store yet"
+	sumN, sumLo uint64
+	sumCount    int
+	blockStart  bool
+	nonTriv     bool
+	pendingL    []string
+	pendingO    []string
 	// best-effort line of the op in flight (used when the op panics) and the dead flag: after
 	// a panic the case ends (model and implementation have diverged for good)
 	panicLine string
@@ -733,45 +742,133 @@ func c10ShowSnapshot(k *c10Keeper, sn *valsettypes.Snapshot) (immut, chains stri
 
 var c10AllChains = []int{1, 2, 3}
 
-// state reads back EVERY snapshot id, the current snapshot and all queues, runs the
-// history monitors and returns the canonical state string.
+// c10Seen is what the history monitors remember of a stored snapshot: the wire bytes of the record
+// without its chain list (everything that must never change), the chain list, and the printed form.
+type c10Seen struct {
+	wire, chains, text string
+}
+
+func c10Wire(sn *valsettypes.Snapshot) string {
+	cp := *sn
+	cp.Chains = nil
+	bz, err := cp.Marshal()
+	if err != nil {
+		return "marshal: " + err.Error()
+	}
+	return string(bz)
+}
+
+func c10ChainsString(sn *valsettypes.Snapshot) string {
+	cs := make([]string, len(sn.Chains))
+	for i, c := range sn.Chains {
+		cs[i] = c10ParseRef(c)
+	}
+	return c10Join("_", "+", cs)
+}
+
+// state reads back EVERY snapshot id ever issued (1 … highest id seen, and a little beyond), the
+// current snapshot and all queues, runs the history monitors and returns the canonical state
+// string.  An id that was found once must be found for ever ("a stored snapshot never changes"):
+// the scan does not stop at the first missing id.
+//
+// Long histories (k.brief, c10_long_test.go) read every id after every op that stored a snapshot,
+// recorded one as live, ran a just-in-time update or is the first of its block; after the other
+// ops (registrations, builds that stored nothing, queries) they read the oldest ids, the ids
+// recorded as live on a chain, the newest ids and a random sample, and the `n=… lo=…` summary of
+// the line is the one of the last complete read (the next complete read is at most a few ops away).
 func (k *c10Keeper) state(ctx sdk.Context, op string) string {
 	vk := k.fa.App().ValsetKeeper
 	var snaps []string
-	n := uint64(0)
-	for id := uint64(1); ; id++ {
+	n, count, lo := uint64(0), 0, uint64(0)
+	limit := k.nSnaps + 2
+	curID := uint64(0)
+	if c, err := vk.GetCurrentSnapshot(ctx); err == nil && c != nil {
+		curID = c.Id
+		if c.Id+2 > limit {
+			limit = c.Id + 2
+		}
+	}
+	visit := func(id uint64) {
 		sn, err := vk.FindSnapshotByID(ctx, id)
 		if err != nil {
-			break
+			if _, was := k.seen[id]; was && !k.gone[id] {
+				k.gone[id] = true
+				c10Hit(k.r, "stored_immutable", "disappeared", fmt.Sprintf("snapshot %d was stored and is not found any more after `%s` (highest stored id %d)", id, op, k.nSnaps), k.replay())
+			}
+			return
 		}
-		n = id
+		if id+2 > limit {
+			limit = id + 2
+		}
+		if _, was := k.seen[id]; !was && id > 1 {
+			if _, prev := k.seen[id-1]; !prev {
+				c10Hit(k.r, "ids_strictly_increase", "gap", fmt.Sprintf("gap in snapshot ids: %d exists but %d was never stored", id, id-1), k.replay())
+			}
+		}
+		if id > n {
+			n = id
+		}
+		count++
+		if lo == 0 || id < lo {
+			lo = id
+		}
 		if sn.Id != id {
 			c10Hit(k.r, "ids_strictly_increase", "id-mismatch", fmt.Sprintf("snapshot stored under id %d carries id %d after `%s`", id, sn.Id, op), k.replay())
 		}
-		immut, chains := c10ShowSnapshot(k, sn)
-		if old, ok := k.seen[id]; ok {
-			if old[0] != immut {
-				c10Hit(k.r, "stored_immutable", "changed", fmt.Sprintf("snapshot %d changed after `%s`: %s -> %s", id, op, old[0], immut), k.replay())
+		now := c10Seen{wire: c10Wire(sn), chains: c10ChainsString(sn)}
+		old, was := k.seen[id]
+		if !k.brief {
+			if was && old.wire == now.wire && old.text != "" {
+				now.text = old.text
+			} else {
+				now.text, _ = c10ShowSnapshot(k, sn)
 			}
-			if !(chains == old[1] || old[1] == "_" || strings.HasPrefix(chains, old[1]+"+")) {
-				c10Hit(k.r, "stored_immutable", "chains", fmt.Sprintf("chains of snapshot %d were not only extended after `%s`: %s -> %s", id, op, old[1], chains), k.replay())
+			snaps = append(snaps, fmt.Sprintf(now.text, now.chains))
+		}
+		if was {
+			if old.wire != now.wire {
+				immut, _ := c10ShowSnapshot(k, sn)
+				c10Hit(k.r, "stored_immutable", "changed", fmt.Sprintf("snapshot %d changed after `%s`: %s -> %s", id, op, old.text, immut), k.replay())
+			}
+			if !(now.chains == old.chains || old.chains == "_" || strings.HasPrefix(now.chains, old.chains+"+")) {
+				c10Hit(k.r, "stored_immutable", "chains", fmt.Sprintf("chains of snapshot %d were not only extended after `%s`: %s -> %s", id, op, old.chains, now.chains), k.replay())
 			}
 		}
-		k.seen[id] = [2]string{immut, chains}
-		snaps = append(snaps, fmt.Sprintf(immut, chains))
+		k.seen[id] = now
 	}
-	for id := n + 1; id <= n+2; id++ {
-		if _, err := vk.FindSnapshotByID(ctx, id); err == nil {
-			c10Hit(k.r, "ids_strictly_increase", "gap", fmt.Sprintf("gap in snapshot ids: %d exists but %d does not", id, n+1), k.replay())
+	complete := !k.brief || k.blockStart || k.sumN == 0 || curID != k.nSnaps ||
+		strings.HasPrefix(op, "onchain") || strings.HasPrefix(op, "jit")
+	k.blockStart = false
+	if complete {
+		k.r.Stat("state.complete-read")
+		for id := uint64(1); id <= limit; id++ {
+			visit(id)
 		}
-	}
-	if n < k.nSnaps {
-		c10Hit(k.r, "stored_immutable", "disappeared", fmt.Sprintf("snapshots disappeared after `%s`: %d -> %d", op, k.nSnaps, n), k.replay())
+		k.sumN, k.sumCount, k.sumLo = n, count, lo
+	} else {
+		k.r.Stat("state.sampled-read")
+		ids := []uint64{1, 2, 3, k.nSnaps, k.nSnaps + 1, k.nSnaps + 2}
+		for _, ch := range c10AllChains {
+			ids = append(ids, k.liveOn[ch])
+		}
+		for i := 0; i < 12 && k.nSnaps > 0; i++ {
+			ids = append(ids, 1+uint64(k.r.Rng.Int63n(int64(k.nSnaps))))
+		}
+		did := map[uint64]bool{0: true}
+		for _, id := range ids {
+			if !did[id] {
+				did[id] = true
+				visit(id)
+			}
+		}
+		n, count, lo = k.sumN, k.sumCount, k.sumLo
 	}
 	if n > k.nSnaps+1 {
 		c10Hit(k.r, "ids_strictly_increase", "jump", fmt.Sprintf("more than one snapshot appeared in `%s`: %d -> %d", op, k.nSnaps, n), k.replay())
 	}
-	k.nSnaps = n
+	if n > k.nSnaps {
+		k.nSnaps = n
+	}
 	cur := "-"
 	c, err := vk.GetCurrentSnapshot(ctx)
 	if err != nil {
@@ -779,12 +876,11 @@ func (k *c10Keeper) state(ctx sdk.Context, op string) string {
 	}
 	if c != nil {
 		cur = fmt.Sprint(c.Id)
-		immut, chains := c10ShowSnapshot(k, c)
-		if c.Id != n || k.seen[n] != [2]string{immut, chains} {
-			c10Hit(k.r, "current_is_max", "not-highest", fmt.Sprintf("current snapshot is %d, highest stored id is %d after `%s`", c.Id, n, op), k.replay())
+		if c.Id != k.nSnaps || k.seen[c.Id].wire != c10Wire(c) || k.seen[c.Id].chains != c10ChainsString(c) {
+			c10Hit(k.r, "current_is_max", "not-highest", fmt.Sprintf("current snapshot is %d, highest stored id is %d after `%s`", c.Id, k.nSnaps, op), k.replay())
 		}
-	} else if n != 0 {
-		c10Hit(k.r, "current_is_max", "none", fmt.Sprintf("no current snapshot although %d are stored", n), k.replay())
+	} else if k.nSnaps != 0 {
+		c10Hit(k.r, "current_is_max", "none", fmt.Sprintf("no current snapshot although %d were stored", k.nSnaps), k.replay())
 	}
 	var qs []string
 	for _, ch := range c10AllChains {
@@ -804,6 +900,9 @@ func (k *c10Keeper) state(ctx sdk.Context, op string) string {
 				c10CheckValset(k.r, sn, ref, v, k.replay())
 			}
 		}
+	}
+	if k.brief {
+		return fmt.Sprintf("last=%d cur=%s n=%d lo=%d q=%s", n, cur, count, lo, c10Join("-", "#", qs))
 	}
 	return fmt.Sprintf("last=%d cur=%s snaps=%s q=%s", n, cur, c10Join("-", "#", snaps), c10Join("-", "#", qs))
 }
@@ -993,7 +1092,11 @@ func (k *c10Keeper) opOnChain(ctx sdk.Context, id uint64, ch int) {
 	k.inOp(ctx, "onchain", func(c sdk.Context) (string, string) {
 		line := fmt.Sprintf("onchain %d %d", id, ch)
 		k.panicLine = line
-		return line, c10ErrRes(k.fa.App().ValsetKeeper.SetSnapshotOnChain(c, id, c10Ref(ch)))
+		err := k.fa.App().ValsetKeeper.SetSnapshotOnChain(c, id, c10Ref(ch))
+		if err == nil && id > k.liveOn[ch] {
+			k.liveOn[ch] = id
+		}
+		return line, c10ErrRes(err)
 	})
 }
 
@@ -1116,6 +1219,7 @@ type c10Step func(ctx sdk.Context)
 // block runs the steps inside ONE block (WithDeliverCtx) and then writes the recorded lines.
 func (k *c10Keeper) block(steps ...c10Step) {
 	b, err := k.fa.WithDeliverCtx(func(ctx sdk.Context) error {
+		k.blockStart = true
 		k.fa.App().MetrixKeeper.UpdateUptime(ctx)
 		for _, s := range steps {
 			if k.dead {
@@ -1133,7 +1237,7 @@ func (k *c10Keeper) block(steps ...c10Step) {
 
 func newC10Keeper(t *testing.T, r *Rec, seed int64, stakes []sdkmath.Int) *c10Keeper {
 	fa := NewFullApp(t, FullAppOpts{NumValidators: len(stakes), NumUsers: 1, Seed: seed, ValidatorStake: stakes})
-	k := &c10Keeper{t: t, r: r, fa: fa, idOf: map[string]int{}, seen: map[uint64][2]string{}}
+	k := &c10Keeper{t: t, r: r, fa: fa, idOf: map[string]int{}, seen: map[uint64]c10Seen{}, gone: map[uint64]bool{}, liveOn: map[int]uint64{}}
 	for i := range fa.Vals {
 		k.idOf[fa.ValAddr(i).String()] = i + 1
 	}
@@ -1388,6 +1492,7 @@ func TestC10(t *testing.T) {
 	}
 	runC10Directed(t, r)
 	runC10JitDirected(t, r)
+	runC10Long(t, r)
 	runC10Pure(t, r)
 	nk := r.N / 6 // a keeper case builds a fresh app and runs ~45 blocks (≈0.15 s)
 	if nk < 8 {
